@@ -593,11 +593,32 @@ func oracleC07asa(c *Case) Verdict {
 	if early != nil {
 		return *early
 	}
-	if r.refusal != nil {
-		return discard("refused-by-model")
-	}
 	sc := asam.ScopeOf(r.b)
 	prot := r.a.Protected(sc)
+	if r.refusal != nil {
+		// A removal that the device refuses is C08's business, unless it
+		// aims at an object outside Netspoc's scope: the attempt itself is
+		// then what C07 forbids.
+		if strings.HasPrefix(r.refCmd, "no ") || strings.HasPrefix(r.refCmd, "clear configure ") {
+			words := strings.Fields(r.refCmd)
+			names := map[string]bool{}
+			for k := range prot {
+				_, n, _ := strings.Cut(k, ":")
+				names[n] = true
+			}
+			for _, k := range r.a.VPNFrameOf(sc).Keys() {
+				_, n, _ := strings.Cut(k, ":")
+				names[n] = true
+			}
+			for _, w := range words {
+				if names[w] {
+					return fail("asa:protected-delete-attempted", "step %d (%s) tries to remove %s, which is outside Netspoc's scope (the device refuses: %s)\n--- device\n%s--- target\n%s--- script\n%s",
+						r.refStep+1, r.refCmd, w, r.refusal.Msg, c.Files["device"], c.Files["code/router"], scriptText(r.steps))
+				}
+			}
+		}
+		return discard("refused-by-model")
+	}
 	frame := r.a.FrameText(sc)
 	vpnFrame := r.a.VPNFrameOf(sc)
 	vpnBefore := vpnFrame.Text(r.a)
